@@ -12,6 +12,24 @@ STAGES = {
                      ('two-mutations-3-parts', 'EmlParse', dict(BUDGET='2', MAXPARTS='3', DEV_SliceFilename='FALSE'))],
     },
 }
+def extra_scenarios(tier, seed):
+    """hand-written inputs with more deviating fields than the budget of the design model: a part with a disposition AND a Content-ID
+    whose data cannot be read to the end (damaged or cut base64, message cut inside the part)"""
+    top = dict(ctype='mixed', boundary='ok', cte='absent', date='ok', trunc='none', to='ok')
+    top['from'] = 'ok'
+    text = dict(ptype='plain', disp='absent', fname='absent', cid=False, cte='absent', sub=0)
+    out = []
+    for disp in ('attachment', 'inline'):
+        for cte in ('b64garbage', 'b64cut1', 'b64cut2', 'b64'):
+            for trunc in ('none', 'body', 'noclose'):
+                for fname in ('quoted', 'encodedkoi', 'absent'):
+                    if cte == 'b64' and trunc == 'none':
+                        continue
+                    part = dict(ptype='plain', disp=disp, fname=fname, cid=True, cte=cte, sub=0)
+                    out.append(dict(input=dict(top=dict(top, trunc=trunc), parts=[text, part]), predict=dict(out='any', parts=0, atts=0, embeds=0)))
+    return out
+
+
 SEED_PASSES = {('C09', 'thorough'): 3}
 SENS_INVS = ['Total']
 SENSITIVITY = {'C09': [('DEV_SliceFilename', 'EmlParse', dict(BUDGET='2', MAXPARTS='1', DEV_SliceFilename='TRUE'), 'Total')]}
